@@ -178,7 +178,13 @@ pub fn resolve_constant(
     }
 
 
-    if symbol.value != prev_value
+    let is_stable = match (&symbol.value, &prev_value)
+    {
+        (expr::Value::Integer(a), expr::Value::Integer(b)) => a.is_identical(b),
+        (a, b) => a == b,
+    };
+
+    if !is_stable
     {
         // On the final iteration, unstable guesses become errors
         if ctx.is_last_iteration
